@@ -354,6 +354,53 @@ def run_filter(ctx):
         ctx.violation("C16:keyset:private-export-of-public-ok", "private export of a set with a public-only key did not fail", {})
 
 
+def run_key_sets(ctx):
+    """A key set is a LIST: export and re-import keep every key, in order, whatever the kids are -- equal kids (RFC 7517 section 4.5
+    allows them for keys of different types or generations), absent kids, a kid that equals a sibling's thumbprint."""
+    rng = ctx.rng
+
+    def ident(k):
+        d = k.as_dict(is_private=False) if k.kty != "oct" else k.as_dict()
+        return json.dumps({x: d[x] for x in d if x not in ("kid", "use", "key_ops", "alg")}, sort_keys=True)
+    ec1, ec2 = ECKey.generate_key("P-256", is_private=True), ECKey.generate_key("P-384", is_private=True)
+    ok1 = OKPKey.generate_key("Ed25519", is_private=True)
+    rsa1 = RSAKey.import_key(rsa_pool_cached(ctx)[0])
+    oc1, oc2 = OctKey.generate_key(), OctKey.generate_key()
+    pool = [ec1, ec2, ok1, rsa1, oc1, oc2]
+    shapes = [["same", "same"], ["same", "same", "same"], [None, None], ["a", None, "a"], ["thumb-of-0", None], [None, "thumb-of-0"], ["a", "b", "a", "b"], ["", ""], ["a"], []]
+    for shape in shapes:
+        for rep in range(2 if ctx.tier == "quick" else 8):
+            members = rng.sample(pool, len(shape)) if len(shape) <= len(pool) else [rng.choice(pool) for _ in shape]
+            keys = []
+            for k, kid in zip(members, shape):
+                d = k.as_dict(is_private=True) if k.kty != "oct" else k.as_dict()
+                d.pop("kid", None)
+                if kid == "thumb-of-0":
+                    kid = members[0].thumbprint()
+                if kid is not None:
+                    d["kid"] = kid
+                keys.append(JsonWebKey.import_key(d))
+            case = {"key_set_kids": shape, "types": [k.kty for k in keys]}
+            ctx.case(case, ("keyset", json.dumps(shape), rep), "keyset:n%d" % len(shape))
+            want = [ident(k) for k in keys]
+            try:
+                ks = KeySet(keys)
+                got0 = [ident(k) for k in ks.keys]
+                exported = ks.as_dict(is_private=True)
+                got1 = [ident(JsonWebKey.import_key(d)) for d in exported["keys"]]
+                ks2 = JsonWebKey.import_key_set(json.loads(ks.as_json(is_private=True))) if keys else None
+                got2 = [ident(k) for k in ks2.keys] if ks2 is not None else []
+                ks3 = JsonWebKey.import_key_set(exported) if keys else None
+                got3 = [ident(k) for k in ks3.keys] if ks3 is not None else []
+            except Exception as e:  # noqa: BLE001
+                ctx.violation("C16:keyset:roundtrip-raises:%s" % type(e).__name__, "a key set could not be exported and imported again", case)
+                continue
+            for lab, got in (("constructed", got0), ("as_dict", got1), ("as_json+import_key_set", got2), ("as_dict+import_key_set", got3)):
+                if got != want:
+                    ctx.violation("C16:keyset:roundtrip-loses-or-reorders:%s" % lab, "exporting a key set and importing it again does not yield the same keys in the same order "
+                                  "(%d of %d)" % (len(got), len(want)), case)
+
+
 _RSA = []
 
 
@@ -372,6 +419,7 @@ def run(ctx):
     run_codecs(ctx)
     run_keys(ctx)
     run_filter(ctx)
+    run_key_sets(ctx)
 
 
 def run_case(ctx, case):
